@@ -1,3 +1,4 @@
+import OpacusLean.Generated.FloatBookkeeping
 import OpacusLean.Model.Calib
 import OpacusLean.Model.Binary64
 import OpacusLean.Lemmas.Binary64Steps
@@ -285,5 +286,23 @@ example : lenDP .asCoded 100 = 100 ∧ stepsCal .asCoded 2 100 = 200 := by decid
 example : ¬ (lenDP .asCoded 93 = 93) := by decide +kernel
 
 end steps
+
+/-! ## The tie to the source: float bookkeeping re-translated on every run -/
+section generatedTie
+open Opacus.Binary64 Opacus.Generated.Float
+/-- the tie to the source: the float bookkeeping of `make_private`, `make_private_with_epsilon`,
+`get_noise_multiplier` and the two Poisson samplers, re-translated on every run into exact binary64 operations, is
+the model's `qSampler`, `lenDP`, `qAcc`, `stepsCal`, `ebs`, `ebsDist` (as-coded variant) -/
+theorem generated_bookkeeping_eq_model (N L W epochs : Nat) (v : Variant) :
+    sampleRateWithEpsilon L = qSampler L ∧
+    samplerSteps (sampleRateWithEpsilon L) = lenDP .asCoded L ∧
+    distSamplerSteps (sampleRateWithEpsilon L) = lenDP .asCoded L ∧
+    sampleRate (lenDP v L) = qAcc v L ∧
+    calibSteps epochs (sampleRateWithEpsilon L) = stepsCal .asCoded epochs L ∧
+    expectedBatchSize N (sampleRate (lenDP v L)) = ebs v N L ∧
+    expectedBatchSizeDist (ebs v N L) W = ebsDist v N L W :=
+  ⟨rfl, rfl, rfl, rfl, rfl, rfl, rfl⟩
+
+end generatedTie
 
 end Opacus.C08
